@@ -236,7 +236,7 @@ def _failure(rec, field, desc):
 def support(ctx, broken):
     sup = Support()
     pq = sp.tmp_parquet()
-    # the fully-filtered parquet reads are left to C15 (their answer depends on what the process planned before: D18)
+    # the fully-filtered parquet reads are left to C15 (their answer depends on what the process planned before: the `_cached_plan` key finding)
     qids = [q for q in sp.POOL if "pq_none" not in sp.flags(q).get("tags", [])]
     if ctx.quick:
         # a slice of 32 queries: everything touching a cache (sorts, set_index, parquet, repartition-by-size, flaky, disk)
